@@ -163,6 +163,8 @@ for _n, (_x, _y) in _PAIR.items():
                 'doc(p(%s("ab"), %s("c")), p(%s(pic())))' % (_x, _y, _x),
                 'doc(p(m1("a")), plain(m1("b")), p(m1("c"), "d"))',
                 'doc(p(m3("a")), plain(m3("b"), "e"), p(m3("c")))']
+# mx2 (m0 excludes everything, nothing excludes m0 back): a leaf carrying two marks and one carrying a single mark
+DOCS["mx2"] = DOCS["mx2"] + ['doc(p(m1(m2(pic())), m1(pic())))']
 DOCS["mx1"] = DOCS["mx1"] + ['doc(p(m2i(1)(m2i(2)("ab")), m2i(1)("c"), "d"))']
 
 # slices: (source template expression, from, to) - cut with the oracle-checked Node.slice
